@@ -21,6 +21,7 @@ package fasthttp
 // the stop flag was set carries "Connection: close" (raw bytes).
 
 import (
+	"net"
 	"context"
 	"fmt"
 	"os"
@@ -28,6 +29,7 @@ import (
 	"sort"
 	"strings"
 	"sync"
+	"sync/atomic"
 	"testing"
 	"time"
 
@@ -73,12 +75,17 @@ type vpC15Scenario struct {
 	GateFirst       bool // Release==1 gates are opened before (else after) the Shutdown goroutine is started
 	Pad             int
 	PriorCycles     int // complete Serve / request / Shutdown cycles the same Server value went through before this scenario
+	// PoolSqueeze: Concurrency equals the number of staged connections plus one; before Shutdown one more
+	// connection is served and closed while a ConnState hook keeps its worker busy in StateClosed, and yet
+	// another connection arrives in that window (a free concurrency slot, no free worker: it is refused).
+	// Whatever bookkeeping that refusal does, Shutdown still has to wait for every staged handler.
+	PoolSqueeze bool
 }
 
 func (sc vpC15Scenario) String() string {
 	var b strings.Builder
-	fmt.Fprintf(&b, "ln=%v cos=%v rmu=%v idle=%v read=%v ctx=%v gatefirst=%v pad=%d prior=%d", sc.LnKinds, sc.CloseOnShutdown, sc.ReduceMem,
-		sc.IdleTimeout, sc.ReadTimeout, sc.WithCtx, sc.GateFirst, sc.Pad, sc.PriorCycles)
+	fmt.Fprintf(&b, "ln=%v cos=%v rmu=%v idle=%v read=%v ctx=%v gatefirst=%v pad=%d prior=%d squeeze=%v", sc.LnKinds, sc.CloseOnShutdown, sc.ReduceMem,
+		sc.IdleTimeout, sc.ReadTimeout, sc.WithCtx, sc.GateFirst, sc.Pad, sc.PriorCycles, sc.PoolSqueeze)
 	for j, c := range sc.Conns {
 		fmt.Fprintf(&b, " | c%d ln%d %s pre=%d pretmo=%v", j, c.Ln, c.Phase, c.Pre, c.PreTmo)
 		if c.ViaServeConn {
@@ -198,6 +205,16 @@ func vpC15Gen(t *rapid.T) vpC15Scenario {
 			c.ViaServeConn = rapid.IntRange(0, 4).Draw(t, "viaServeConn") == 0
 		}
 		sc.Conns = append(sc.Conns, c)
+	}
+	if rapid.IntRange(0, 4).Draw(t, "poolSqueeze") == 0 {
+		// only connections that come through a listener and hold their handler across the start of Shutdown
+		ok := len(sc.Conns) > 0
+		for _, c := range sc.Conns {
+			if !(c.Phase == "gate" && c.Release >= 2 && !c.ViaServeConn) {
+				ok = false
+			}
+		}
+		sc.PoolSqueeze = ok
 	}
 	return sc
 }
@@ -514,6 +531,24 @@ func vpC15RunScenario(t *rapid.T, sc vpC15Scenario) {
 		IdleTimeout:       sc.IdleTimeout,
 		ReadTimeout:       sc.ReadTimeout,
 	}
+	var squeezeArmed atomic.Bool
+	squeezeEntered, squeezeGate := make(chan struct{}), make(chan struct{})
+	if sc.PoolSqueeze {
+		s.Concurrency = len(sc.Conns) + 1
+		s.ConnState = func(_ net.Conn, st ConnState) {
+			if st == StateClosed && squeezeArmed.CompareAndSwap(true, false) {
+				close(squeezeEntered)
+				<-squeezeGate // (a hook that takes its time: the worker is busy, its concurrency slot is already free)
+			}
+		}
+		defer func() {
+			select {
+			case <-squeezeGate:
+			default:
+				close(squeezeGate)
+			}
+		}()
+	}
 	r.s = s
 	// a Server value may be served again after Shutdown returned: the scenario below must hold on a
 	// restarted server exactly as on a new one
@@ -561,6 +596,31 @@ func vpC15RunScenario(t *rapid.T, sc vpC15Scenario) {
 		if e != "" {
 			t.Fatalf("VP-INCONCLUSIVE: staging failed before Shutdown was involved: %s\nscenario: %s", e, sc)
 		}
+	}
+
+	if sc.PoolSqueeze {
+		// all staged handlers are running; one more connection is served and closed, its worker kept in the
+		// StateClosed hook; the connection that arrives now finds a free slot and no free worker
+		closer, err := r.dial(0)
+		if err != nil {
+			t.Fatalf("VP-INCONCLUSIVE: pool squeeze: dial: %v\nscenario: %s", err, sc)
+		}
+		squeezeArmed.Store(true)
+		closer.send([]byte("GET /p?id=closer&k=fast HTTP/1.1\r\nHost: vp\r\nConnection: close\r\n\r\n"))
+		select {
+		case <-squeezeEntered:
+		case <-time.After(vpC15SetupMax):
+			t.Fatalf("VP-INCONCLUSIVE: pool squeeze: the closing connection never reached StateClosed\nscenario: %s", sc)
+		}
+		extra, err := r.dial(0)
+		if err == nil {
+			extra.send([]byte("GET /p?id=extra&k=fast HTTP/1.1\r\nHost: vp\r\n\r\n"))
+			extra.wait(vpC15SetupMax, func(out []byte, closed bool) bool { return closed || vpC15Complete(out) >= 1 })
+			r.clients = append(r.clients, extra)
+		}
+		close(squeezeGate)
+		r.clients = append(r.clients, closer)
+		vpExtra("c15_pool_squeeze_scenarios", 1)
 	}
 
 	// ---- fire
